@@ -8,15 +8,14 @@ typedef struct m_map_BreakPoint_vector_ProgramIndex_e pb_e;
 typedef struct m_BreakPoint bp_t;
 
 /* ghost state of the debugger contracts */
-extern unsigned long model_g_map, model_g_set, model_last_map, model_last_set, model_pick_map, model_pick_set;
+#include "model_ghost_c.h"
 extern int gc_op, gc_p0, gc_p1, gc_p2; /* pre-state snapshot of code[g_c] */
 extern unsigned long g_w;              /* ghost entry of potential_breaks */
 extern unsigned long g_e;              /* ghost position in the enabled set */
 extern long ge_file;                   /* snapshot of enabled[g_e] */
 extern int ge_line;
-extern int *g_arena;                   /* all site lists live in this one object (their contents are never written) */
-extern unsigned long g_arena_n;
-extern int *g_sp;                      /* ghost pointer to one element of a site list */
+extern unsigned long g_s;              /* ghost position in the site list of entry g_w */
+extern int *g_cur_lo, *g_cur_hi;       /* site list of the enabled location being processed (set by the at-use hook) */
 
 #define OLD(e) __CPROVER_old(e)
 #define LI(p) (V(p)->code.line_info._d)
@@ -31,18 +30,24 @@ extern int *g_sp;                      /* ghost pointer to one element of a site
 #define SITES(p, e) (PB(p)[e].second)
 #define BPEQ(a, f, l) ((a).file._id == (f) && (a).line == (l))
 #define IS_SITE_OP(o) ((o) == OP_POTENTIAL_BREAK || (o) == OP_BREAK)
-/* byte offset of q inside the arena object (pointer difference: the predicate parser of loop-contract files
- * does not know __CPROVER_POINTER_OFFSET) */
-#define OFF(q) ((const char *)(q) - (const char *)g_arena)
-
-#define ENOFF(q) ((const char *)(q) - (const char *)EN(g_vm))
-/* site list e lies inside the arena */
-#define LIST_OK(p, e)                                                                     \
-  (SITES(p, e)._n <= SITES(p, e)._cap && __CPROVER_same_object(SITES(p, e)._d, g_arena) && OFF(SITES(p, e)._d) >= 0 && \
-   OFF(SITES(p, e)._d) % 4 == 0 && (unsigned long)OFF(SITES(p, e)._d) / 4 + SITES(p, e)._cap <= g_arena_n)
-/* q points at an element of site list e */
-#define IN_LIST(p, e, q)                                                                  \
-  (__CPROVER_same_object(q, g_arena) && (q) >= SITES(p, e)._d && (q) < SITES(p, e)._d + SITES(p, e)._n && OFF(q) % 4 == 0)
+/* site list e is a valid object of its own (is_fresh assigns the stored pointer; a pointer merely *assumed* equal to an
+ * object cannot be dereferenced by CBMC's symbolic execution) */
+#ifdef LIST_CAP /* bounded stand-in for the site-list length (unwinding groups): constant-size lists */
+#define LIST_CAP_MAX LIST_CAP
+#define LIST_ALLOC(cap) LIST_CAP
+#else
+#define LIST_CAP_MAX INT_MAX
+#define LIST_ALLOC(cap) (cap)
+#endif
+#define REQ_LIST(p, e)                                                                    \
+  __CPROVER_requires((e) >= NPB(p) || (SITES(p, e)._n <= SITES(p, e)._cap && SITES(p, e)._cap <= LIST_CAP_MAX)) \
+  __CPROVER_requires((e) >= NPB(p) || __CPROVER_is_fresh(SITES(p, e)._d, LIST_ALLOC(SITES(p, e)._cap) * sizeof(int)))
+/* iterator q walks the list [lo, end).  Written with integer casts: in a loop invariant q is havocked, and CBMC attaches
+ * (unguarded) pointer-relation checks to `q >= lo` / `end - q` on pointers; the numeric encoding of two pointers into the
+ * same object orders them by offset */
+#define PN(q) ((unsigned long)(q))
+#define IT_IN_LIST(q, lo, end)                                                            \
+  (__CPROVER_same_object(q, end) && __CPROVER_same_object(lo, end) && PN(q) >= PN(lo) && PN(q) <= PN(end) && (PN(end) - PN(q)) % 4 == 0)
 /* I5/TBL instance: a listed site is a breakpoint instruction of the program */
 #define SITE_VAL_OK(p, v) ((v) >= 0 && (unsigned long)(v) < N(p) && IS_SITE_OP(OPC(p, v)))
 
@@ -52,28 +57,37 @@ extern int *g_sp;                      /* ghost pointer to one element of a site
 #define CODE_G_OP_DEBUGGER_ONLY(p)                                                        \
   (g_c >= N(p) || OPC(p, g_c) == gc_op || (IS_SITE_OP(gc_op) && IS_SITE_OP(OPC(p, g_c))))
 
-/* iterator q walks [.., end) inside the arena */
-#define IT_IN_ARENA(q, end)                                                               \
-  (__CPROVER_same_object(q, g_arena) && __CPROVER_same_object(end, g_arena) && (q) <= (end) && OFF(q) >= 0 && OFF(q) % 4 == 0 && \
-   OFF(end) % 4 == 0 && (unsigned long)OFF(end) / 4 <= g_arena_n)
-
+/* TBL_CAP: bounded stand-in for the number of entries of potential_breaks / enabled_breakpoints (arrays of constant
+ * size; byte-granular access to symbolic-size arrays of 12/36-byte structs does not scale in CBMC); undefined: unbounded */
+#ifdef TBL_CAP
+#define TBL_CAP_MAX TBL_CAP
+#define TBL_ALLOC(cap) TBL_CAP
+#else
+#define TBL_CAP_MAX INT_MAX
+#define TBL_ALLOC(cap) (cap)
+#endif
+#ifdef CODE_CAP /* bounded stand-in for the program size (unwinding groups only) */
+#define CODE_CAP_MAX CODE_CAP
+#define CODE_ALLOC(n) CODE_CAP
+#else
+#define CODE_CAP_MAX INT_MAX
+#define CODE_ALLOC(n) (n)
+#endif
 #define REQ_DBG_SHAPE(p)                                                                  \
   __CPROVER_requires(__CPROVER_is_fresh(p, sizeof(vm_t)))                                 \
   __CPROVER_requires(g_vm == V(p))                                                        \
-  __CPROVER_requires(N(p) >= 1 && N(p) <= INT_MAX && V(p)->code.code._cap == N(p))        \
-  __CPROVER_requires(__CPROVER_is_fresh(CODE(p), N(p) * sizeof(struct m_Instruction)))    \
+  __CPROVER_requires(N(p) >= 1 && N(p) <= CODE_CAP_MAX && V(p)->code.code._cap == N(p))   \
+  __CPROVER_requires(__CPROVER_is_fresh(CODE(p), CODE_ALLOC(N(p)) * sizeof(struct m_Instruction))) \
   __CPROVER_requires(M(p) <= MCAP(p) && MCAP(p) <= INT_MAX)                               \
   __CPROVER_requires(__CPROVER_is_fresh(DATA(p), MCAP(p) * sizeof(int)))                  \
   __CPROVER_requires(D(p) <= DCAP(p) && DCAP(p) <= INT_MAX)                               \
   __CPROVER_requires(__CPROVER_is_fresh(STK(p), DCAP(p) * sizeof(act_t)))                 \
   __CPROVER_requires(NLI(p) <= LICAP(p) && LICAP(p) <= INT_MAX)                           \
   __CPROVER_requires(__CPROVER_is_fresh(LI(p), LICAP(p) * sizeof(li_e)))                  \
-  __CPROVER_requires(NEN(p) <= ENCAP(p) && ENCAP(p) <= INT_MAX)                           \
-  __CPROVER_requires(__CPROVER_is_fresh(EN(p), ENCAP(p) * sizeof(bp_t)))                  \
-  __CPROVER_requires(NPB(p) <= PBCAP(p) && PBCAP(p) <= INT_MAX)                           \
-  __CPROVER_requires(__CPROVER_is_fresh(PB(p), PBCAP(p) * sizeof(pb_e)))                  \
-  __CPROVER_requires(g_arena_n <= INT_MAX)                                                \
-  __CPROVER_requires(__CPROVER_is_fresh(g_arena, g_arena_n * sizeof(int)))                \
+  __CPROVER_requires(NEN(p) <= ENCAP(p) && ENCAP(p) <= TBL_CAP_MAX)                       \
+  __CPROVER_requires(__CPROVER_is_fresh(EN(p), TBL_ALLOC(ENCAP(p)) * sizeof(bp_t)))       \
+  __CPROVER_requires(NPB(p) <= PBCAP(p) && PBCAP(p) <= TBL_CAP_MAX)                       \
+  __CPROVER_requires(__CPROVER_is_fresh(PB(p), TBL_ALLOC(PBCAP(p)) * sizeof(pb_e)))       \
   __CPROVER_requires(IP(p) >= 0 && (unsigned long)IP(p) < N(p))                           \
   __CPROVER_requires(*(unsigned char *)&STEPPING(p) <= 1)                                 \
   __CPROVER_requires(g_c >= N(p) || (gc_op == OPC(p, g_c) && gc_p0 == PAR(p, g_c, 0) && gc_p1 == PAR(p, g_c, 1) && gc_p2 == PAR(p, g_c, 2))) \
